@@ -428,6 +428,65 @@ pub fn over_only_catalogue() -> Vec<(&'static str, Pd)> {
     ]
 }
 
+/// diagrams with SEVERAL components that never pass under (their orientation is not induced by the code). Used by the
+/// link-level facts of C18 only: the larger ones are beyond the step budget of the Khovanov configurations.
+pub fn multi_over_only_catalogue() -> Vec<(&'static str, Pd)> {
+    let mut v = vec![("unknot+2 over-circles", vec![[1, 3, 2, 4], [2, 5, 7, 6], [7, 5, 8, 6], [8, 3, 1, 4]])];
+    let tre: Pd = vec![[1, 4, 2, 5], [3, 6, 4, 1], [5, 2, 6, 3]];
+    let hopf: Pd = vec![[4, 1, 3, 2], [2, 3, 1, 4]];
+    let fig8: Pd = vec![[4, 2, 5, 1], [8, 6, 1, 5], [6, 3, 7, 4], [2, 7, 3, 8]];
+    for (name, base, ks) in [
+        ("trefoil+2 over-circles", &tre, vec![0usize, 1]),
+        ("trefoil+3 over-circles", &tre, vec![2, 0, 1]),
+        ("hopf+2 over-circles", &hopf, vec![0, 1]),
+        ("figure8+2 over-circles", &fig8, vec![1, 3]),
+        ("trefoil+2 over-circles on one edge", &tre, vec![0, 0]),
+    ] {
+        let mut pd = base.clone();
+        let mut ok = true;
+        for k in ks {
+            match add_over_circle(&pd, k) {
+                Some(q) => pd = q,
+                None => ok = false,
+            }
+        }
+        if ok {
+            v.push((name, pd));
+        }
+    }
+    v
+}
+
+/// lay a small circle OVER the edge that leaves crossing `k` through its outgoing under-slot (position 2): two new
+/// crossings, the old strand passes under both; the circle never passes under, so its orientation is free.
+/// None if that edge returns to the same crossing (kink).
+pub fn add_over_circle(pd: &Pd, k: usize) -> Option<Pd> {
+    let e = pd[k][2];
+    let fresh = pd.iter().flat_map(|x| x.iter().cloned()).max().unwrap_or(0);
+    let (n1, n2, c1, c2) = (fresh + 1, fresh + 2, fresh + 3, fresh + 4);
+    // the other end of e: any slot holding e except (k, 2)
+    let mut other = None;
+    for (c, x) in pd.iter().enumerate() {
+        for j in 0..4 {
+            if x[j] == e && !(c == k && j == 2) {
+                if other.is_some() {
+                    return None;
+                }
+                other = Some((c, j));
+            }
+        }
+    }
+    let (oc, oj) = other?;
+    if oc == k {
+        return None;
+    }
+    let mut q = pd.clone();
+    q[oc][oj] = n2;
+    q.push([e, c1, n1, c2]);
+    q.push([n1, c1, n2, c2]);
+    Some(q)
+}
+
 /// larger diagrams, read (as data) from the repository's link table
 pub fn big_catalogue() -> Vec<(&'static str, Pd)> {
     let mut v = Vec::new();
